@@ -11,6 +11,7 @@ from numpy.typing import NDArray  # noqa: TC002
 from ropt.config.enopt import EnOptConfig
 from ropt.ensemble_evaluator import EnsembleEvaluator
 from ropt.enums import EventType, OptimizerExitCode
+from ropt.exceptions import OptimizationAborted
 from ropt.optimization import EnsembleOptimizer
 from ropt.plan import Event, Plan
 from ropt.plugins.plan.base import PlanStep
@@ -90,51 +91,69 @@ class DefaultOptimizerStep(PlanStep):
         self._nested_optimization = nested_optimization
         self._metadata = metadata
 
-        self.emit_event(
-            Event(
-                event_type=EventType.START_OPTIMIZER_STEP,
-                config=self._config,
-                source=self.id,
+        # The events may be used to abort the optimization, also those that are
+        # emitted at the start and the end of the step:
+        try:
+            self.emit_event(
+                Event(
+                    event_type=EventType.START_OPTIMIZER_STEP,
+                    config=self._config,
+                    source=self.id,
+                )
             )
-        )
 
-        if variables is None:
-            variables = self._config.variables.initial_values
-        variables = np.array(np.asarray(variables, dtype=np.float64), ndmin=1)
+            if variables is None:
+                variables = self._config.variables.initial_values
+            variables = np.array(np.asarray(variables, dtype=np.float64), ndmin=1)
 
-        ensemble_evaluator = EnsembleEvaluator(
-            self._config,
-            self._transforms,
-            self.plan.optimizer_context.evaluator,
-            self.plan.optimizer_context.plugin_manager,
-        )
+            ensemble_evaluator = EnsembleEvaluator(
+                self._config,
+                self._transforms,
+                self.plan.optimizer_context.evaluator,
+                self.plan.optimizer_context.plugin_manager,
+            )
 
-        ensemble_optimizer = EnsembleOptimizer(
-            enopt_config=self._config,
-            ensemble_evaluator=ensemble_evaluator,
-            plugin_manager=self.plan.optimizer_context.plugin_manager,
-            nested_optimizer=(
-                self._run_nested_plan if self._nested_optimization is not None else None
-            ),
-            signal_evaluation=self._signal_evaluation,
-        )
+            ensemble_optimizer = EnsembleOptimizer(
+                enopt_config=self._config,
+                ensemble_evaluator=ensemble_evaluator,
+                plugin_manager=self.plan.optimizer_context.plugin_manager,
+                nested_optimizer=(
+                    self._run_nested_plan
+                    if self._nested_optimization is not None
+                    else None
+                ),
+                signal_evaluation=self._signal_evaluation,
+            )
 
-        if ensemble_optimizer.is_parallel and self._nested_optimization is not None:
-            msg = "Nested optimization detected: parallel evaluation not supported. "
-            raise RuntimeError(msg)
+            if (
+                ensemble_optimizer.is_parallel
+                and self._nested_optimization is not None
+            ):
+                msg = (
+                    "Nested optimization detected: "
+                    "parallel evaluation not supported. "
+                )
+                raise RuntimeError(msg)
 
-        exit_code = ensemble_optimizer.start(variables)
+            exit_code = ensemble_optimizer.start(variables)
+        except OptimizationAborted as exc:
+            exit_code = exc.exit_code
 
         if exit_code == OptimizerExitCode.USER_ABORT:
             self.plan.abort()
 
-        self.emit_event(
-            Event(
-                event_type=EventType.FINISHED_OPTIMIZER_STEP,
-                config=self._config,
-                source=self.id,
+        try:
+            self.emit_event(
+                Event(
+                    event_type=EventType.FINISHED_OPTIMIZER_STEP,
+                    config=self._config,
+                    source=self.id,
+                )
             )
-        )
+        except OptimizationAborted as exc:
+            exit_code = exc.exit_code
+            if exit_code == OptimizerExitCode.USER_ABORT:
+                self.plan.abort()
 
         return exit_code
 
